@@ -44,6 +44,7 @@ use super::*;
 //@include prelude/line_spec.rs
 //@include prelude/visit_spec.rs
 //@include prelude/analyze_spec.rs
+//@include prelude/analyze_imports.rs
 //@include prelude/analyze_l2.rs
 //@include prelude/memokeys_spec.rs
 //@include prelude/fs_canonical_decl.rs
